@@ -375,8 +375,18 @@ def direct_case(case):
         rec = {"static": st, "state": [cur, sl, ptot, 0.0, pf], "additive": additive, "ret": ret, "remaining": remaining,
                "month": month, "code": case["code"], "scenario": case["scenario"]}
         try:
-            with quiet():
-                left = ap.AnimalPopulation.calculate_change_in_population(a, _Country(month), additive, remaining)
+            try:
+                with quiet():
+                    left = ap.AnimalPopulation.calculate_change_in_population(a, _Country(month), additive, remaining)
+            except AssertionError:
+                # (remaining / h) * h can exceed remaining by one ulp in floats and trip the code's own assert; a state that
+                # passes with the hours nudged up by 1e-9 relative is counted as that rounding artefact, not as a failure
+                a.current_population = cur
+                remaining = remaining * (1 + 1e-9)
+                rec["remaining"] = remaining
+                rec["float_assert"] = True
+                with quiet():
+                    left = ap.AnimalPopulation.calculate_change_in_population(a, _Country(month), additive, remaining)
             rec["obs"] = [fl(a.slaughter[-1]), fl(a.current_population), fl(a.pregnant_animals_total[-1]),
                           fl(a.pregnant_animals_birthing_this_month[-1]), fl(a.other_death_causes_other_than_starving[-1]),
                           fl(a.slaughtered_pregnant_animals[-1]), fl(left)]
